@@ -106,7 +106,8 @@ class RepeatingEventBase(EventBase):
                 'scheme_id_uri': self.schemeIdUri,
                 'timescale': self.timescale,
                 'event_duration': self.duration,
-                'event_id': event_id,
+                # a 32 bit field: the id wraps in a stream that has been live for long enough
+                'event_id': event_id & 0xFFFFFFFF,
                 'value': self.value,
                 'data': data,
             }
